@@ -159,6 +159,9 @@ def run_sign(case, agg):
     label = f"sign {case['env']} alg={case['alg']} key={kname} kid={case['kid']}"
     sign_script, kms_script = scripts()
     kd = vkeys.key_dir()
+    if case["i"] % 3 == 1:
+        import json as _json
+        kd = _json.dumps({"keys_directory": kd})          # the documented JSON form of the context
     with fresh_dir("c04") as d:
         inp, outp = os.path.join(d, "in.suit"), os.path.join(d, "out.suit")
         open(inp, "wb").write(b)
